@@ -457,4 +457,273 @@ theorem post_intent : Post rdIntent IntentOK := by
       refine ⟨⟨hsni, huser, hcert.2.1, fun g => absurd g hg, fun g => h34 (.inl g), fun g => h34 (.inr g)⟩,
         hport, hst, hex, hcert, fun _ => hcmd⟩
 
+def AgFits : AgMsg → Prop
+  | .request i | .communication i => IntentFits i
+  | .denied s => s.length ≤ 255
+  | _ => True
+
+/-- representable grant messages (an `unknown` type byte must really be unknown) -/
+def AgOK : AgMsg → Prop
+  | .request i | .communication i => IntentOK i
+  | .confirmation => True
+  | .denied s => s.length ≤ 255
+  | .unknown t => t ≠ 1 ∧ t ≠ 2 ∧ t ≠ 3 ∧ t ≠ 4
+
+def agBytes : AgMsg → Bytes
+  | .request i => 1 :: intentBytes i
+  | .communication i => 2 :: intentBytes i
+  | .confirmation => [3]
+  | .denied s => 4 :: strBytes s
+  | .unknown t => [t]
+
+theorem encAg_ok {m : AgMsg} (h : AgFits m) : encAg m = .ok (agBytes m) := by
+  cases m with
+  | request i => simp [encAg, encIntent_ok (show IntentFits i from h), agBytes, bind, Except.bind, pure, Except.pure]
+  | communication i => simp [encAg, encIntent_ok (show IntentFits i from h), agBytes, bind, Except.bind, pure, Except.pure]
+  | confirmation => rfl
+  | denied s => simp [encAg, encStr_ok (show s.length ≤ 255 from h), agBytes, bind, Except.bind, pure, Except.pure]
+  | unknown t => rfl
+
+theorem encAg_err {m : AgMsg} (h : ¬ AgFits m) : ∃ e, encAg m = .error e := by
+  cases m with
+  | request i =>
+    obtain ⟨e, he⟩ := encIntent_err (show ¬ IntentFits i from h)
+    exact ⟨e, by simp [encAg, he, bind, Except.bind]⟩
+  | communication i =>
+    obtain ⟨e, he⟩ := encIntent_err (show ¬ IntentFits i from h)
+    exact ⟨e, by simp [encAg, he, bind, Except.bind]⟩
+  | confirmation => exact absurd trivial h
+  | denied s => exact ⟨.tooLong, by simp [encAg, encStr_err (show ¬ s.length ≤ 255 from h), bind, Except.bind]⟩
+  | unknown t => exact absurd trivial h
+
+theorem reads_ag {m : AgMsg} (h : AgOK m) : Reads rdAg (agBytes m) m := by
+  unfold rdAg
+  cases m with
+  | request i => exact reads_u8_bind (by rw [if_pos rfl]; exact reads_map AgMsg.request (reads_intent h))
+  | communication i =>
+    exact reads_u8_bind (by rw [if_neg (by decide), if_pos rfl]; exact reads_map AgMsg.communication (reads_intent h))
+  | confirmation =>
+    exact reads_u8_bind (by rw [if_neg (by decide), if_neg (by decide), if_pos rfl]; exact reads_pure _)
+  | denied s =>
+    exact reads_u8_bind (by
+      rw [if_neg (by decide), if_neg (by decide), if_neg (by decide), if_pos rfl]
+      exact reads_map AgMsg.denied (reads_str h))
+  | unknown t =>
+    obtain ⟨h1, h2, h3, h4⟩ := h
+    exact reads_u8_bind (by rw [if_neg h1, if_neg h2, if_neg h3, if_neg h4]; exact reads_pure _)
+
+theorem post_ag : Post rdAg AgOK := by
+  unfold rdAg
+  refine post_bind (post_true _) fun t _ => ?_
+  refine post_ite (fun _ => post_bind post_intent fun i hi => post_pure hi) fun h1 => ?_
+  refine post_ite (fun _ => post_bind post_intent fun i hi => post_pure hi) fun h2 => ?_
+  refine post_ite (fun _ => post_pure trivial) fun h3 => ?_
+  refine post_ite (fun _ => post_bind post_str fun s hs => post_pure hs) fun h4 => ?_
+  exact post_pure ⟨h1, h2, h3, h4⟩
+
+/-! ### frames -/
+
+theorem flags_rt (f : Flags) : flagsOf (metaOf f) = f := by
+  rcases f with ⟨a, b, c, d, e, g⟩
+  cases a <;> cases b <;> cases c <;> cases d <;> cases e <;> cases g <;> decide
+
+/-- frames whose encoding is a datagram (≤ 65535 bytes) and whose length field says what the
+data is; the other two conditions are the ranges of the `uint32` fields -/
+def FrameOK (f : Frame) : Prop :=
+  f.dataLength = f.data.length ∧ f.data.length + 12 ≤ 65535 ∧ f.ackNo < 2 ^ 32 ∧ f.frameNo < 2 ^ 32
+
+theorem reads_frame {f : Frame} (h : FrameOK f) : Reads rdFrame (encFrame f) f := by
+  obtain ⟨hd, hl, ha, hf⟩ := h
+  unfold rdFrame encFrame
+  simp only [List.cons_append, List.nil_append]
+  refine reads_u8_bind (reads_u8_bind ?_)
+  refine reads_bind (reads_uBE (by omega)) (reads_bind (reads_uBE (by omega)) (reads_bind (reads_uBE (by omega)) ?_))
+  rw [if_neg (by omega)]
+  rw [flags_rt]
+  exact reads_map (fun data => (⟨f.tubeID, f.flags, f.dataLength, f.ackNo, f.frameNo, data⟩ : Frame))
+    (reads_readN hd.symm)
+
+theorem post_frame : Post rdFrame (fun f => FrameOK f ∧ ∃ m, f.flags = flagsOf m) := by
+  unfold rdFrame
+  refine post_bind (post_true _) fun tube _ => post_bind (post_true _) fun m _ => ?_
+  refine post_bind (post_uBE 2) fun dl hdl => post_bind (post_uBE 4) fun ack hack => post_bind (post_uBE 4) fun fno hfno => ?_
+  refine post_ite (fun _ => post_fail) fun hle => post_bind (post_readN _) fun data hdata => post_pure ?_
+  exact ⟨⟨hdata.symm, by simp only; omega, hack, hfno⟩, m, rfl⟩
+
+def InitFrameOK (f : InitFrame) : Prop :=
+  f.dataLength = f.data.length ∧ f.data.length + 10 ≤ 65535 ∧ f.frameNo < 2 ^ 32
+
+theorem reads_initFrame {f : InitFrame} (h : InitFrameOK f) : Reads rdInitFrame (encInitFrame f) f := by
+  obtain ⟨hd, hl, hf⟩ := h
+  unfold rdInitFrame encInitFrame
+  simp only [List.cons_append, List.nil_append]
+  refine reads_u8_bind (reads_u8_bind ?_)
+  refine reads_bind (reads_uBE (by omega)) (reads_u8_bind (reads_u8_bind (reads_bind (reads_uBE (by omega)) ?_)))
+  rw [if_neg (by omega)]
+  rw [flags_rt]
+  exact reads_map (fun data => (⟨f.tubeID, f.flags, f.dataLength, f.tubeType, f.frameNo, data⟩ : InitFrame))
+    (reads_readN hd.symm)
+
+theorem post_initFrame : Post rdInitFrame (fun f => InitFrameOK f ∧ ∃ m, f.flags = flagsOf m) := by
+  unfold rdInitFrame
+  refine post_bind (post_true _) fun tube _ => post_bind (post_true _) fun m _ => ?_
+  refine post_bind (post_uBE 2) fun dl hdl => post_bind (post_true _) fun tt _ => post_bind (post_true _) fun _ _ => ?_
+  refine post_bind (post_uBE 4) fun fno hfno => ?_
+  refine post_ite (fun _ => post_fail) fun hle => post_bind (post_readN _) fun data hdata => post_pure ?_
+  exact ⟨⟨hdata.symm, by simp only; omega, hfno⟩, m, rfl⟩
+
+/-! ### exec requests -/
+
+def SizeOK (s : WinSize) : Prop := s.rows < 65536 ∧ s.cols < 65536 ∧ s.x < 65536 ∧ s.y < 65536
+
+/-- lengths that fit the 32-bit length fields, window dimensions in `uint16` -/
+def ExecOK (m : ExecInit) : Prop :=
+  m.cmd.length < 2 ^ 32 ∧ m.term.length < 2 ^ 32 ∧ ∀ s, m.size = some s → SizeOK s
+
+theorem reads_len32 {s : Bytes} (h : s.length < 2 ^ 32) : Reads rdLen32 (toBE 4 s.length ++ s) s := by
+  unfold rdLen32
+  exact reads_bind (reads_uBE (by omega)) (reads_bind_nil (reads_allocate _) (reads_readN rfl))
+
+theorem reads_len32_bind {f : Bytes → R β} {s ys : Bytes} {w : β} (h : s.length < 2 ^ 32)
+    (h2 : Reads (f s) ys w) : Reads (rdLen32 >>= f) (toBE 4 s.length ++ (s ++ ys)) w :=
+  (reads_bind (reads_len32 h) h2).congr (List.append_assoc ..)
+
+theorem post_len32 : Post rdLen32 (fun s => s.length < 2 ^ 32) := by
+  unfold rdLen32
+  refine post_bind (post_uBE 4) fun l hl => post_bind (post_true _) fun _ _ => (post_readN _).mono fun v hv => ?_
+  omega
+
+theorem reads_size {s : WinSize} (h : SizeOK s) : Reads rdSize (encSize s) s := by
+  obtain ⟨h1, h2, h3, h4⟩ := h
+  unfold rdSize encSize
+  refine reads_bind (reads_uBE (by omega)) (reads_bind (reads_uBE (by omega)) (reads_bind (reads_uBE (by omega)) ?_))
+  exact reads_map (fun y => (⟨s.rows, s.cols, s.x, y⟩ : WinSize)) (reads_uBE (by omega))
+
+theorem post_size : Post rdSize SizeOK := by
+  unfold rdSize
+  refine post_bind (post_uBE 2) fun r hr => post_bind (post_uBE 2) fun c hc => post_bind (post_uBE 2) fun x hx => ?_
+  exact post_bind (post_uBE 2) fun y hy => post_pure ⟨hr, hc, hx, hy⟩
+
+theorem reads_exec {m : ExecInit} (h : ExecOK m) : Reads rdExec (encExec m) m := by
+  obtain ⟨h1, h2, h3⟩ := h
+  rcases m with ⟨p, cmd, term, size⟩
+  simp only at h1 h2 h3
+  cases size with
+  | none =>
+    cases p
+    · show Reads rdExec (0 :: (toBE 4 cmd.length ++ (cmd ++ (toBE 4 term.length ++ (term ++ []))))) _
+      unfold rdExec
+      refine reads_u8_bind (reads_len32_bind h1 (reads_len32_bind h2 ?_))
+      rw [if_neg (by decide)]
+      exact reads_bind_nil (reads_pure _) (reads_pure_eq rfl)
+    · show Reads rdExec (1 :: (toBE 4 cmd.length ++ (cmd ++ (toBE 4 term.length ++ (term ++ []))))) _
+      unfold rdExec
+      refine reads_u8_bind (reads_len32_bind h1 (reads_len32_bind h2 ?_))
+      rw [if_neg (by decide)]
+      exact reads_bind_nil (reads_pure _) (reads_pure_eq rfl)
+  | some s =>
+    have hs := h3 s rfl
+    cases p
+    · show Reads rdExec (2 :: (toBE 4 cmd.length ++ (cmd ++ (toBE 4 term.length ++ (term ++ encSize s))))) _
+      unfold rdExec
+      refine reads_u8_bind (reads_len32_bind h1 (reads_len32_bind h2 ?_))
+      rw [if_pos (by decide)]
+      exact reads_map (fun size => (⟨false, cmd, term, size⟩ : ExecInit)) (reads_map some (reads_size hs))
+    · show Reads rdExec (3 :: (toBE 4 cmd.length ++ (cmd ++ (toBE 4 term.length ++ (term ++ encSize s))))) _
+      unfold rdExec
+      refine reads_u8_bind (reads_len32_bind h1 (reads_len32_bind h2 ?_))
+      rw [if_pos (by decide)]
+      exact reads_map (fun size => (⟨true, cmd, term, size⟩ : ExecInit)) (reads_map some (reads_size hs))
+
+theorem post_exec : Post rdExec ExecOK := by
+  unfold rdExec
+  refine post_bind (post_true _) fun t _ => post_bind post_len32 fun cmd hcmd => post_bind post_len32 fun term hterm => ?_
+  split
+  · refine post_bind (post_bind post_size fun s hs => post_pure (P := fun o => ∀ s', o = some s' → SizeOK s') ?_)
+      fun o ho => post_pure ⟨hcmd, hterm, ho⟩
+    intro s' h; cases h; exact hs
+  · refine post_bind (post_pure (P := fun o => ∀ s', o = some s' → SizeOK s') ?_)
+      fun o ho => post_pure ⟨hcmd, hterm, ho⟩
+    intro s' h; cases h
+
+/-! ### user-auth requests (`GetInitMsg` has no error result) -/
+
+theorem dec_readPad (n : Nat) (bs : Bytes) :
+    (readPad n).dec bs = .ok (bs.take n ++ List.replicate (n - bs.length) 0, bs.drop n) := rfl
+
+theorem reads_readPad {n : Nat} {xs : Bytes} (h : xs.length = n) : Reads (readPad n) xs xs := by
+  intro rest
+  rw [dec_readPad, List.take_left' h, List.drop_left' h]
+  have : n - (xs ++ rest).length = 0 := by simp; omega
+  rw [this]; simp
+
+theorem post_readPad (n : Nat) : Post (readPad n) (fun x => x.length = n) := by
+  intro bs v r h
+  rw [dec_readPad] at h
+  cases h
+  simp; omega
+
+theorem reads_ua {u : Bytes} (h : u.length ≤ 65535) : Reads rdUA (toBE 2 u.length ++ u) u := by
+  unfold rdUA
+  refine reads_bind (reads_readPad (toBE_length 2 _)) ?_
+  rw [fromBE_toBE 2 _ (by omega)]
+  exact reads_bind_nil (reads_allocate _) (reads_readPad rfl)
+
+theorem post_ua : Post rdUA (fun u => u.length ≤ 65535) := by
+  unfold rdUA
+  refine post_bind (post_readPad 2) fun l hl => post_bind (post_true _) fun _ _ => (post_readPad _).mono fun v hv => ?_
+  have := fromBE_lt l
+  rw [hl] at this
+  omega
+
+/-- `GetInitMsg` returns a name for every input -/
+theorem ua_total (bs : Bytes) : ∃ u r, rdUA.dec bs = .ok (u, r) := by
+  unfold rdUA
+  rw [dec_bind_of_ok (dec_readPad 2 bs), dec_bind_of_ok (dec_allocate _ _)]
+  exact ⟨_, _, dec_readPad _ _⟩
+
+/-! ### port-forward requests -/
+
+def PFFits (p : PF) : Prop := (p.netType = 1 ∨ p.netType = 2 ∨ p.netType = 3) ∧ p.addr.length ≤ 65535
+
+/-- representable requests: a known network type, an address that fits the 16-bit length and —
+for TCP and UDP — has the host:port form `readPacket` insists on -/
+def PFOK (p : PF) : Prop := p.addr.length ≤ 65535 ∧ addrOK p.netType p.addr = true
+
+theorem addrOK_netType {nt : UInt8} {a : Bytes} (h : addrOK nt a = true) : nt = 1 ∨ nt = 2 ∨ nt = 3 := by
+  unfold addrOK at h
+  split at h
+  · rename_i h12; rcases h12 with h1 | h2
+    · exact .inl h1
+    · exact .inr (.inl h2)
+  · exact .inr (.inr (by simpa using h))
+
+def pfBytes (p : PF) : Bytes := [p.netType, p.fwdType] ++ (toBE 2 p.addr.length ++ p.addr)
+
+theorem encPF_ok {p : PF} (h : PFFits p) : encPF p = .ok (pfBytes p) := by
+  simp [encPF, pfBytes, h.1, h.2]
+
+theorem encPF_err {p : PF} (h : ¬ PFFits p) : ∃ e, encPF p = .error e := by
+  unfold encPF
+  by_cases h1 : p.netType = 1 ∨ p.netType = 2 ∨ p.netType = 3
+  · have h2 : ¬ p.addr.length ≤ 65535 := fun h2 => h ⟨h1, h2⟩
+    exact ⟨.tooLong, by rw [if_pos h1, if_neg h2]⟩
+  · exact ⟨.invalid, by rw [if_neg h1]⟩
+
+theorem reads_pf {p : PF} (h : PFOK p) : Reads rdPF (pfBytes p) p := by
+  obtain ⟨hl, ha⟩ := h
+  unfold rdPF pfBytes
+  simp only [List.cons_append, List.nil_append]
+  refine reads_u8_bind (reads_u8_bind (reads_bind (reads_uBE (by omega)) (reads_bind_nil (reads_allocate _) ?_)))
+  refine (reads_bind (reads_readN rfl) ?_).congr (List.append_nil _)
+  rw [if_pos ha]
+  exact reads_pure _
+
+theorem post_pf : Post rdPF PFOK := by
+  unfold rdPF
+  refine post_bind (post_true _) fun nt _ => post_bind (post_true _) fun ft _ => post_bind (post_uBE 2) fun l hl => ?_
+  refine post_bind (post_true _) fun _ _ => post_bind (post_readN _) fun a ha => ?_
+  refine post_ite (fun hok => post_pure ⟨?_, hok⟩) fun _ => post_fail
+  simp only; omega
+
 end Wire
